@@ -36,6 +36,7 @@ var c04Catalogue = []string{
 	"pad-wrong-value", "pad-wrong-count", "pad-count-over-15", "pad-count-16", "integrity-pad-not-ff", "different-body-unsigned-same-seq",
 	"pad-sequential-17", "pad-sequential-24", "pad-sequential-40", "pad-sequential-200", "pad-sequential-255", "pad-last-byte-wrong", "pad-one-byte-wrong",
 	"pad-two-bytes-same-flip", "pad-two-bytes-swapped", "pad-all-zero-3", "pad-all-zero-7", "pad-all-zero-11", "pad-all-zero-15", "pad-all-ff-4", "pad-shifted-by-one", "pad-multi-a", "pad-multi-b", "pad-multi-c",
+	"pad-16-garbage", "pad-16-zero", "pad-16-garbage-long",
 	"sid-bmc-signed", "sid-bmc-unsigned", "sid-zero-signed", "sid-plus1-signed", "sid-minus1-signed", "sid-swapped-signed", "sid-highbit-signed", "sid-inverted-signed", "sid-bmc-plus1-signed",
 }
 
@@ -393,6 +394,21 @@ func c04Forge(o c04One, b *refbmc.BMC, auth []byte, forgedBody []byte, r interfa
 		}
 		pt := append(append([]byte(nil), mm...), pad...)
 		pt = append(pt, byte(want))
+		return se.Wrap(nil, refbmc.WrapOpts{RawPlain: pt}), true
+	case "pad-16-garbage", "pad-16-zero", "pad-16-garbage-long":
+		// a whole extra block of "pad" whose content is not 01,02,.. (count byte 0x10)
+		mm := append([]byte(nil), msg...)
+		for len(mm)%16 != 15 || (o.Kind == "pad-16-garbage-long" && len(mm) < 40) {
+			mm = append(mm[:len(mm)-1], 0, 0)
+			mm[len(mm)-1] = refbmc.Csum(mm[3 : len(mm)-1])
+		}
+		pad := randBytes(16)
+		if o.Kind == "pad-16-zero" {
+			pad = make([]byte, 16)
+		}
+		pad[3] = 0x77 // never the sequential pad by accident
+		pt := append(append([]byte(nil), mm...), pad...)
+		pt = append(pt, 16)
 		return se.Wrap(nil, refbmc.WrapOpts{RawPlain: pt}), true
 	case "pad-last-byte-wrong", "pad-one-byte-wrong":
 		mm := append([]byte(nil), msg...)
